@@ -18,5 +18,7 @@ def run(run, model):
     marker.report_rule(run, model, "C11.release-on-all-exits", marker.MARKER_REGIONS, "no exit is reached with the marker held (a leaked marker would leave later, non re-entrant calls unchecked)", as_rule="C10.no-sticky")
     from . import inv
     run.do(inv.selection, model, "C10.wrapped-members", "C10.wrapped-members-source")
+    from . import twins
+    run.do(twins.body_await, model, "C10.body-unheld-async")
     run.minimum("C10.own-release", 5, "two checker wrappers, constructor wrapper, two method wrappers")
     run.minimum("C10.key", 5)
